@@ -357,6 +357,31 @@ func areaInstance(r *Rng, n int, dir string) (*AreaOut, error) {
 				return txn.Put(dbi, []byte("k"), mkStored(clock-9000, 1, 0, 0, []byte("left")), 0)
 			})
 		}
+		if sweep && r.Chance(60) {
+			// deletion markers of every age (sweeper enabled: some are past the load cutoff, some past the retention
+			// period and not swept yet): they exist, so they are part of the image
+			_ = env.Update(func(txn *lmdb.Txn) error {
+				name := "app"
+				if !native {
+					name = shadowPrefix + "app"
+					if _, err := txn.OpenDBI("app", 0); err != nil {
+						return nil // no application DBI of that name: nothing to mirror
+					}
+				}
+				dbi, err := txn.OpenDBI(name, lmdb.Create)
+				if err != nil {
+					return err
+				}
+				for j, age := range []time.Duration{23*time.Hour + 50*time.Minute, 25 * time.Hour, 72 * time.Hour} {
+					if r.Chance(60) {
+						if err := txn.Put(dbi, []byte(fmt.Sprintf("zold%d", j)), mkStored(clock-uint64(age), 1, 1, 0, nil), 0); err != nil {
+							return err
+						}
+					}
+				}
+				return nil
+			})
+		}
 		if !native && r.Chance(10) { // an application DBI that has no shadow yet
 			_ = applyApp(env, false, clock, []appOp{{DBI: "late", Key: []byte("k"), Val: []byte("v")}})
 		}
@@ -488,6 +513,7 @@ func areaInstance(r *Rng, n int, dir string) (*AreaOut, error) {
 			usedNames[name] = true
 			d := snapDBI{Name: name}
 			var keys [][]byte
+			plainDup := false
 			switch name {
 			case "ints":
 				d.Flags = strategy.LMDBIntegerKeyFlag
@@ -497,6 +523,18 @@ func areaInstance(r *Rng, n int, dir string) (*AreaOut, error) {
 					}
 				}
 			case "dup":
+				if r.Chance(15) {
+					plainDup = true
+					// the sender has this name as a PLAIN DBI (no duplicate keys, no transform): consistent in itself, but
+					// its keys are not shadow keys of the hack; a receiver whose own DBI of that name has duplicate keys
+					// cannot mirror them and refuses the snapshot
+					for _, k := range byteKeyPool[:6] {
+						if r.Chance(50) {
+							keys = append(keys, k)
+						}
+					}
+					break
+				}
 				d.Flags = lmdb.DupSort
 				d.Transform = "dupsort_hack_v1"
 				for _, k := range byteKeyPool[:4] {
@@ -521,7 +559,7 @@ func areaInstance(r *Rng, n int, dir string) (*AreaOut, error) {
 			}
 			for _, k := range keys {
 				e := snapshot.KV{Key: k, TimestampNano: pick(r, []uint64{clock - 5000, clock - 1000, clock - 2000, clock + 500, 1, 0})}
-				if name == "dup" {
+				if name == "dup" && !plainDup {
 					// value is the suffix stored in the hack key; keep consistent
 					dec, _ := syncer.VerifDupSortDecodeOne(snapshot.KV{Key: k})
 					_ = dec
@@ -849,6 +887,21 @@ func dumpOracle(native bool, envAfter []dbiDump, up []snapDBI) []OracleFailure {
 		src := d
 		if !native {
 			src = byName[shadowPrefix+d.Name]
+		}
+		// C04: deletion markers travel in every snapshot for as long as they exist in the LMDB, however old
+		{
+			inSnap := map[string]bool{}
+			for _, e := range u.Entries {
+				if e.Flags&1 == 1 {
+					inSnap[string(e.Key)] = true
+				}
+			}
+			for _, p := range src.Data {
+				if lv, ok := logical(p.V); ok && lv.Del && !inSnap[string(p.K)] {
+					fs = append(fs, OracleFailure{"C04", "markers-travel", fmt.Sprintf("DBI %s: the deletion marker for key %x (timestamp %d) is stored in the LMDB but is not in the snapshot uploaded from it", d.Name, p.K, lv.TS), nil})
+					break
+				}
+			}
 		}
 		if len(src.Data) != len(u.Entries) {
 			fs = append(fs, OracleFailure{"C06", "complete", fmt.Sprintf("DBI %s: %d stored entries, %d in the snapshot", d.Name, len(src.Data), len(u.Entries)), nil})
